@@ -436,7 +436,13 @@ func RunC09(r *core.Run) {
 			}
 			wok = true
 		}
-		if gm != wm || gok != wok {
+		anyExp := hasExpHdr
+		for i := range contacts {
+			anyExp = anyExp || contacts[i].HasExpires
+		}
+		// (when nothing in the message carries an expires value, whether the summary says
+		// "0, present" or "0, absent" is not stated)
+		if gm != wm || (gok != wok && anyExp) {
 			fail("message-max-expires", fmt.Sprintf("PHdrVals.MaxExpires() = (%d,%v), expected (%d,%v) from %d contact values (max %d) and Expires header present=%v (%d)", gm, gok, wm, wok, len(contacts), mx, hasExpHdr, expHdr), "")
 			return
 		}
